@@ -993,6 +993,44 @@ class Program:
         err = float(np.max(np.abs(dense - v.mat)))
         if not err <= 1e-10 * max(1.0, v.bound):
             self.violate("mpo-route:matrix", dict(max_abs_err=err, terms=describe(v.obj)))
+            return
+        # ---- the same expression OBJECTS in a second model that groups two electronic DoFs on one multi-DoF site: what they
+        #      denote there may not depend on their having been used in the first model (fresh equal objects are the reference)
+        elec = [d for d in u.dofs if u.dof_kind[d] == "elec"]
+        if len(elec) >= 2 and u.qn_size == 1:
+            from renormalizer.model.basis import BasisMultiElectronVac
+            i1, i2 = sorted(int(x) for x in self.rng.choice(len(elec), size=2, replace=False))
+            d1, d2 = elec[i1], elec[i2]
+            basis_b = []
+            for b in u.basis:
+                if b.dofs[0] == d1:
+                    basis_b.append(BasisMultiElectronVac([d1, d2] if self.rng.random() < 0.5 else [d2, d1]))
+                elif b.dofs[0] != d2:
+                    basis_b.append(b)
+
+            def ev(term_list):
+                try:
+                    return np.asarray(Mpo(Model(basis_b, term_list)).todense())
+                except Exception as e:  # noqa
+                    return type(e).__name__
+            fresh = [Op(t.symbol, list(t.dofs), t.factor, [np.asarray(q).tolist() for q in t.qn_list] if u.qn_size > 1 else
+                        [int(np.asarray(q).ravel()[0]) for q in t.qn_list]) for t in terms]
+            used, ref_b = ev(terms), ev(fresh)
+            again = None
+            try:
+                again = np.asarray(Mpo(Model(u.basis, terms)).todense())
+            except Exception as e:  # noqa
+                again = type(e).__name__
+            self.run.count("two-layouts:" + ("compared" if isinstance(ref_b, np.ndarray) else "rejected-in-second-layout"))
+            same_b = (isinstance(used, str) and used == ref_b) or (isinstance(used, np.ndarray) and isinstance(ref_b, np.ndarray)
+                                                                     and used.shape == ref_b.shape and np.allclose(used, ref_b, atol=1e-10 * max(1.0, v.bound)))
+            if not same_b:
+                self.violate("two-layouts:used-objects-differ-from-fresh-equal-objects",
+                             dict(terms=describe(v.obj), grouped=[repr(d1), repr(d2)], used=used if isinstance(used, str) else "matrix",
+                                  fresh=ref_b if isinstance(ref_b, str) else "matrix"))
+            elif not (isinstance(again, np.ndarray) and again.shape == dense.shape and np.allclose(again, dense, atol=1e-10 * max(1.0, v.bound))):
+                self.violate("two-layouts:first-model-result-changed-after-use-in-second",
+                             dict(terms=describe(v.obj), grouped=[repr(d1), repr(d2)], again=again if isinstance(again, str) else "matrix"))
 
     def final_check(self):
         for v in self.vars:
